@@ -102,3 +102,22 @@ Theorem C01_Bundle_layout101_GroupLaws eps (H : 0 < eps) :
   let LG := [R1_packG; SO3_packG eps H; SE2_packG eps H] in
   GroupLaws (Bundle [Rn RS 1; SO3 RS eps; SE2 RS eps]) (gc_valid (Bundle_core LG R1_packG)) (gc_hom (Bundle_core LG R1_packG)) (gc_homo (Bundle_core LG R1_packG)).
 Proof. exact (laws_of_core _ (Bundle_core [R1_packG; SO3_packG eps H; SE2_packG eps H] R1_packG)). Qed.
+
+(* non-vacuity of the Bundle GroupLaws: the validity predicate of the Bundle's GroupCore is "a concatenation of valid elements"
+   (BundleCoreValid), and a concrete element of Bundle<R1, SO3, SE2> satisfies it *)
+From Manif Require Import BundleCoreValid.
+Theorem C01_Bundle_core_valid (LG : list PackedG) (dG : PackedG) X :
+  gc_valid (Bundle_core LG dG) X <->
+  bvalid RS (map p_G (map m_pack (map g_m LG))) (fun i X => gc_valid (p_core (nth i (map m_pack (map g_m LG)) (m_pack (g_m dG)))) X) X.
+Proof. exact (Bundle_core_valid LG dG X). Qed.
+Print Assumptions C01_Bundle_core_valid.
+Example C01_Bundle_layout101_nonvacuous eps (H : 0 < eps) :
+  gc_valid (Bundle_core [R1_packG; SO3_packG eps H; SE2_packG eps H] R1_packG) ([5] ++ [3/5; 0; 0; 4/5] ++ [7; -2; 3/5; 4/5]).
+Proof.
+  apply (proj2 (Bundle_core_valid _ _ _)).
+  exists [[5]; [3/5; 0; 0; 4/5]; [7; -2; 3/5; 4/5]]. split; [|reflexivity]. split; [reflexivity|].
+  intros i Hi. destruct i as [|[|[|i]]]; [| | |cbn in Hi; lia]; cbn.
+  - reflexivity.
+  - exists (3/5), 0, 0, (4/5). split; [reflexivity|unfold n4; lra].
+  - exists 7, (-2), (3/5), (4/5). split; [reflexivity|lra].
+Qed.
